@@ -7,7 +7,18 @@
 //!   argmin  <arr> <axis> <keepdims>
 //!   unique  <arr> <axis>
 //!   argmax_f / argmin_f <farr> none <keepdims>   f64 array, elements are integers or `n` (NaN) — exercises the NaN arm
+//! robustness streams (FRAMEWORK.md) — typed ops, first argument `<ty>:<rc>`:
+//!   tsort / targsort <ty>:<rc> <arr> <axis> <kind>,  tunique <ty>:<rc> <arr> <axis>,  targmax / targmin <ty>:<rc> <arr> <axis> <keepdims>
+//!   ty = i64 | u8 | i8 | str (integer lane, mapped order-preservingly into the element type; str through `STR_TABLE`)
+//!      | f64 (float tokens: integer, `z` = -0.0, `e`/`-e` = ±smallest subnormal, `I`/`-I` = ±inf, `n` = NaN)
+//!   rc = p (plain `Array<T>` receiver, called twice) | r (`Ok(array)` through `impl … for Result<Array<T>, ArrayError>`)
+//!      | b (both; all runs must agree bit-wise)
+//!   The answer is compared at VALUE level (0.0 and -0.0 are the same value: both print `0`, which is what the statement's
+//!   "distinct values … without repetition" demands); in addition `tsort` must keep the multiset of bit patterns.
+//!   Lanes containing NaN are outside the statement for sort / unique / argsort (no linear order): reported as open region
+//!   after a weak oracle (sort keeps the multiset of bit patterns; unique keeps the set of non-NaN values).
 use arrharness::*;
+use std::panic::{catch_unwind, AssertUnwindSafe};
 
 // ---------------------------------------------------------------- lanes
 
@@ -255,6 +266,228 @@ fn gen(tier: &str, seed: u64, out: &mut dyn FnMut(String)) {
         }
         out(format!("sort 0:- none s:{}", hex(bad)));
     }
+
+    gen_robust(thorough, &mut rng, out, &enum_kinds, &all_spellings);
+}
+
+// ---------------------------------------------------------------- robustness streams (typed ops)
+
+const TYS: [&str; 5] = ["i64", "u8", "i8", "str", "f64"];
+/// float tokens of an integer lane; `zmode` 1: every other zero is -0.0, 2: every zero is -0.0
+fn f64_tokens(v: &[i64], zmode: usize) -> Vec<String> {
+    let mut zc = 0usize;
+    v.iter().map(|&x| if x == 0 { zc += 1; if zmode == 2 || (zmode == 1 && zc % 2 == 0) { "z".to_string() } else { "0".to_string() } } else { x.to_string() }).collect()
+}
+/// the lane `v` (values valid for every element type: 0..=100) spelled for element type `ty`
+fn lane_ty(ty: &str, shape: &[usize], v: &[i64], zmode: usize) -> String {
+    if ty == "f64" { let t = f64_tokens(v, zmode); format!("{}:{}", show_list(shape), if t.is_empty() { "-".to_string() } else { t.join(",") }) }
+    else { arr_shaped(shape, v) }
+}
+fn emit_typed(out: &mut dyn FnMut(String), tr: &str, a: &str, axes: &[String], kinds: &[String], argsort_kinds: &[String], keeps: &[&str], unique: bool) {
+    for ax in axes {
+        for k in kinds { out(format!("tsort {tr} {a} {ax} {k}")); }
+        for k in argsort_kinds { out(format!("targsort {tr} {a} {ax} {k}")); }
+        for kd in keeps { out(format!("targmax {tr} {a} {ax} {kd}")); out(format!("targmin {tr} {a} {ax} {kd}")); }
+        if unique { out(format!("tunique {tr} {a} {ax}")); }
+    }
+}
+fn sv(v: &[&str]) -> Vec<String> { v.iter().map(|x| x.to_string()).collect() }
+
+fn gen_robust(thorough: bool, rng: &mut Rng, out: &mut dyn FnMut(String), enum_kinds: &[String], all_spellings: &[String]) {
+    let none_ax = sv(&["none"]);
+    // (R-a) element types: every lane over {0,1,2} of length <= 4 (5 thorough) on u8 / i8 / String / f64 (zeros of both signs),
+    //       both receivers, every query; axis none, and axis 0 / -1 on the longest words
+    let wl = if thorough { 5 } else { 4 };
+    for len in 0..=wl {
+        for w in words(3, len) {
+            for (ti, ty) in ["u8", "i8", "str", "f64"].iter().enumerate() {
+                let a = lane_ty(ty, &[len], &w, 1 + (len + ti) % 2);
+                let axes: Vec<String> = if len == wl { sv(&["none", if ti % 2 == 0 { "0" } else { "-1" }]) } else { none_ax.clone() };
+                emit_typed(out, &format!("{ty}:b"), &a, &axes, enum_kinds, enum_kinds, &["none"], true);
+            }
+        }
+    }
+    // (R-b) float lanes over {0.0, -0.0, 1, NaN} of length <= 4 (5 thorough): argmax / argmin exactly (first NaN wins),
+    //       sort x 4 kinds and unique (value level; lanes with NaN: open region + weak oracle), argsort on NaN-free lanes
+    let ftok = ["0", "z", "1", "n"];
+    for len in 1..=(if thorough { 5 } else { 4 }) {
+        for w in words(4, len) {
+            let toks: Vec<&str> = w.iter().map(|&x| ftok[x as usize]).collect();
+            let a = format!("{}:{}", len, toks.join(","));
+            let has_nan = w.contains(&3);
+            let tr = if w.iter().sum::<i64>() % 3 == 0 { "f64:b" } else if w.iter().sum::<i64>() % 3 == 1 { "f64:p" } else { "f64:r" };
+            for kd in ["none", "true"] { out(format!("targmax {tr} {a} none {kd}")); out(format!("targmin {tr} {a} none {kd}")); }
+            out(format!("targmax {tr} {a} 0 false")); out(format!("targmin {tr} {a} -1 none"));
+            for k in enum_kinds { out(format!("tsort {tr} {a} none {k}")); }
+            out(format!("tunique {tr} {a} none"));
+            if !has_nan { for k in enum_kinds { out(format!("targsort {tr} {a} none {k}")); } out(format!("tunique {tr} {a} 0")); }
+        }
+    }
+    // longer float lanes mixing both zeros, subnormals and infinities; NaN placed first / in the middle / last for the extreme queries
+    let fpool = ["0", "z", "1", "-1", "e", "-e", "I", "-I", "2", "z", "0"];
+    for i in 0..(if thorough { 160 } else { 60 }) {
+        let n = [2usize, 3, 5, 8, 12, 21, 33, 65, 100, 130][i % 10];
+        let mut toks: Vec<&str> = (0..n).map(|_| *rng.pick(&fpool)).collect();
+        let a = format!("{}:{}", n, toks.join(","));
+        emit_typed(out, "f64:b", &a, &sv(&["none", if i % 2 == 0 { "0" } else { "-1" }]), enum_kinds, &enum_kinds[i % 4..i % 4 + 1], &["none", "true"], true);
+        let pos = match i % 3 { 0 => 0, 1 => n / 2, _ => n - 1 };
+        toks[pos] = "n"; if i % 4 == 0 { toks[n - 1] = "n"; }
+        let a = format!("{}:{}", n, toks.join(","));
+        for kd in ["none", "true", "false"] { out(format!("targmax f64:b {a} none {kd}")); out(format!("targmin f64:b {a} 0 {kd}")); }
+        if n <= 8 { out(format!("tsort f64:b {a} none {}", enum_kinds[i % 4])); out(format!("tunique f64:b {a} none")); }
+    }
+    // (R-c) value classes: i64 beyond 2^53 (an f64 round trip loses bits) and at the ends of the range; u8 near 255; i8 near +-127;
+    //       String lanes (empty string, blanks, prefixes, upper/lower case, non-ASCII)
+    let p53 = 1i64 << 53;
+    let pools: [(&str, Vec<i64>); 4] = [
+        ("i64", vec![p53 - 1, p53, p53 + 1, p53 + 2, -p53, -p53 - 1, i64::MAX, i64::MAX - 1, i64::MIN, i64::MIN + 1, 0, -1]),
+        ("u8", vec![0, 1, 127, 128, 254, 255]),
+        ("i8", vec![-128, -127, -1, 0, 1, 126, 127]),
+        ("str", vec![0, 1, 2, 3, 4, 5, 6, 7, 8, 9, 10, 11, 12, 13, 14, 15, 40, 1000]),
+    ];
+    for (ty, pool) in &pools {
+        // every lane of length <= 3 over the first six values of the pool
+        for len in 1..=3usize { for w in words(6, len) {
+            let v: Vec<i64> = w.iter().map(|&x| pool[x as usize]).collect();
+            emit_typed(out, &format!("{ty}:b"), &arr1(&v), &none_ax, &enum_kinds[(len + w[0] as usize) % 4..(len + w[0] as usize) % 4 + 1], &enum_kinds[(w[0] as usize) % 4..(w[0] as usize) % 4 + 1], &["none"], true);
+        } }
+        for i in 0..(if thorough { 120 } else { 40 }) {
+            let n = [2usize, 4, 7, 10, 21, 33, 65, 100][i % 8];
+            let v: Vec<i64> = (0..n).map(|_| *rng.pick(pool)).collect();
+            let rc = ["b", "p", "r"][i % 3];
+            emit_typed(out, &format!("{ty}:{rc}"), &arr1(&v), &sv(&["none", if i % 2 == 0 { "0" } else { "-1" }]), enum_kinds, enum_kinds, &["none", "true"], true);
+        }
+    }
+    // (R-d) ties above the 20-element insertion-sort threshold of std's unstable sort: argsort must rank equal elements in
+    //       order of appearance — lanes of 21.. elements over {0,1} / {0,1,2} / one value / runs / alternating, 4 kinds, every type
+    let mut tie_lens = vec![21usize, 22, 32, 33, 40, 64, 65, 100, 130, 257, 528, 1030];
+    if thorough { tie_lens.extend([2100, 4100]); }
+    for (li, &n) in tie_lens.iter().enumerate() {
+        for c in 0..5usize {
+            let v: Vec<i64> = match c {
+                0 => (0..n).map(|_| rng.range(0, 1)).collect(),
+                1 => (0..n).map(|_| rng.range(0, 2)).collect(),
+                2 => vec![5; n],
+                3 => (0..n as i64).map(|i| (i / 3) % 100).collect(),
+                _ => (0..n as i64).map(|i| i % 2).collect(),
+            };
+            let ty = TYS[(li + c) % 5];
+            let a = lane_ty(ty, &[n], &v, 1);
+            if n > 1000 && !thorough && c % 2 == 1 { continue; }
+            let ks: &[String] = if n > 1100 { &enum_kinds[c % 4..c % 4 + 1] } else if n > 500 && !thorough { &enum_kinds[c % 3..c % 3 + 2] } else { enum_kinds };
+            for k in ks { out(format!("targsort {ty}:b {a} none {k}")); }
+            out(format!("targsort {ty}:b {a} {} {}", if c % 2 == 0 { "0" } else { "-1" }, enum_kinds[(li + c) % 4]));
+            if c == 0 && n <= 130 { for k in all_spellings { out(format!("targsort {ty}:b {a} none {k}")); out(format!("targsort {ty}:r {a} -1 {k}")); } }
+        }
+    }
+    // … and as lanes inside n-D arrays
+    for (si, s) in [vec![21usize, 2], vec![2, 33], vec![2, 65, 2], vec![3, 100], vec![22, 3, 2], vec![2, 2, 40]].iter().enumerate() {
+        let n: usize = s.iter().product();
+        let v: Vec<i64> = (0..n).map(|_| rng.range(0, 1 + (si % 2) as i64)).collect();
+        let ty = TYS[si % 5];
+        let a = lane_ty(ty, s, &v, 1);
+        let rank = s.len() as isize;
+        for k in 0..rank { for ax in [k, k - rank] {
+            for kd in enum_kinds { out(format!("targsort {ty}:b {a} {ax} {kd}")); }
+            out(format!("tsort {ty}:b {a} {ax} {}", all_spellings[(si * 7 + (ax + rank) as usize * 3) % all_spellings.len()]));
+        } }
+    }
+    // (R-e) sizes: `big_shapes()` — every axis of every shape (both spellings), all queries, element type rotating.
+    //       Shapes with more than 2000 elements ([4100], [70,70]) get a fixed handful of cases in the quick tier (the list-backed
+    //       model needs ~0.1–3 s for each of them) and the full treatment in the thorough tier.
+    for (si, s) in big_shapes().iter().enumerate() {
+        let n: usize = s.iter().product();
+        let rank = s.len() as isize;
+        let ty = TYS[si % 5];
+        let dup: Vec<i64> = (0..n).map(|_| rng.range(0, 2)).collect();
+        let scr: Vec<i64> = { let q = rng.perm(n); q.iter().map(|&j| (j % 101) as i64).collect() };
+        let (a_dup, a_scr) = (lane_ty(ty, s, &dup, 1), lane_ty(ty, s, &scr, 1));
+        let heavy = n > 2000;
+        if heavy && !thorough {
+            if rank == 1 {
+                out(format!("tsort {ty}:b {a_dup} none e:Quicksort")); out(format!("tsort {ty}:b {a_scr} 0 e:Mergesort")); out(format!("tsort {ty}:b {a_dup} -1 e:Heapsort"));
+                out(format!("targsort {ty}:b {a_dup} none e:Mergesort"));
+                out(format!("targmax {ty}:b {a_dup} none none")); out(format!("targmin {ty}:b {a_scr} -1 true"));
+                out(format!("tunique {ty}:b {a_scr} none")); out(format!("tunique {ty}:b {a_dup} 0"));
+            } else {
+                out(format!("tsort {ty}:b {a_dup} 0 e:Stable"));
+                out(format!("targsort {ty}:b {a_dup} 1 e:Heapsort"));
+                out(format!("targmin {ty}:b {a_scr} -1 true"));
+                out(format!("tunique {ty}:b {a_dup} none"));
+            }
+            continue;
+        }
+        let mut axes: Vec<String> = vec!["none".into()];
+        for k in 0..rank { axes.push(k.to_string()); axes.push((k - rank).to_string()); }
+        for (ai, ax) in axes.iter().enumerate() {
+            let ks: Vec<String> = if heavy { vec![enum_kinds[(si + ai) % 4].clone(), enum_kinds[(si + ai + 2) % 4].clone()] } else { enum_kinds.to_vec() };
+            for k in &ks { out(format!("tsort {ty}:b {a_dup} {ax} {k}")); }
+            out(format!("tsort {ty}:b {a_scr} {ax} {}", enum_kinds[(si + ai + 1) % 4]));
+            out(format!("targsort {ty}:b {a_dup} {ax} {}", enum_kinds[(si + ai) % 4]));
+            if !heavy { out(format!("targsort {ty}:b {a_scr} {ax} {}", enum_kinds[(si + ai + 3) % 4])); }
+            let kd = ["none", "true", "false"][(si + ai) % 3];
+            out(format!("targmax {ty}:b {a_dup} {ax} {kd}")); out(format!("targmin {ty}:b {a_dup} {ax} {kd}"));
+            out(format!("targmax {ty}:b {a_scr} {ax} true")); out(format!("targmin {ty}:b {a_scr} {ax} none"));
+            out(format!("tunique {ty}:b {a_dup} {ax}"));
+            if ax == "none" { out(format!("tunique {ty}:b {a_scr} {ax}")); }
+        }
+        // spelled selectors on big arrays
+        out(format!("tsort {ty}:r {a_dup} {} s:{}", rank - 1, hex("MergeSort")));
+        out(format!("targsort {ty}:r {a_dup} -1 o:{}", hex("STABLE")));
+    }
+    // lanes longer than 4096 with repeated extreme values: first position of the largest / smallest, distinct values.
+    // quick: one placement pattern per element type (i64, u8, f64); thorough: every pattern x every type, and 5000-element lanes
+    let ext: [(&str, i64, i64, i64, i64); 4] = [("i64", i64::MIN, i64::MAX, -1000, 1000), ("u8", 0, 255, 1, 254), ("f64", -(1i64 << 53), 1i64 << 53, -50, 50), ("i8", -128, 127, -127, 126)];
+    for (ei, (ty, lo, hi, mlo, mhi)) in ext.iter().enumerate() {
+        if !thorough && ei == 3 { continue; }
+        for (pi, n) in [(0usize, 4100usize), (1, 4100), (2, 4100), (3, 5000)] {
+            if !thorough && pi != [1usize, 2, 0][ei] { continue; }
+            let mut v: Vec<i64> = (0..n).map(|_| rng.range(*mlo, *mhi)).collect();
+            let at: Vec<usize> = match pi { 0 => vec![n - 1], 1 => vec![0, n / 2, n - 1], 2 => vec![4097, 4098, n - 2], _ => vec![17, 4096, 4999] };
+            for (j, &p) in at.iter().enumerate() { v[p] = *hi; let q = (p + n - 7 - j) % n; if !at.contains(&q) { v[q] = *lo; } }
+            let a = if *ty == "f64" { let mut t = f64_tokens(&v, 1); if pi <= 1 { t[n / 3] = "I".into(); t[n / 3 + 1] = "-I".into(); t[n / 4] = "I".into(); } format!("{}:{}", n, t.join(",")) } else { arr1(&v) };
+            let kd = ["none", "true", "false"][pi % 3];
+            out(format!("targmax {ty}:b {a} none {kd}")); out(format!("targmin {ty}:b {a} none {kd}"));
+            out(format!("tunique {ty}:b {a} none"));
+            out(format!("tsort {ty}:b {a} none e:Quicksort"));
+            if thorough || ei == 0 { out(format!("targmax {ty}:b {a} 0 {kd}")); out(format!("targmin {ty}:b {a} -1 {kd}")); out(format!("tsort {ty}:b {a} none e:Stable")); }
+            if thorough { out(format!("tsort {ty}:b {a} none e:Mergesort")); out(format!("tsort {ty}:b {a} none e:Heapsort")); out(format!("targsort {ty}:b {a} none e:Mergesort")); }
+        }
+        // one value only, 4100 times (for f64: zeros of both signs)
+        if thorough || ei == 1 || ei == 2 {
+            let v = vec![*hi; 4100];
+            let a = if *ty == "f64" { format!("4100:{}", (0..4100).map(|i| if i % 3 == 0 { "0" } else { "z" }).collect::<Vec<_>>().join(",")) } else { arr1(&v) };
+            out(format!("targmax {ty}:b {a} none none")); out(format!("tunique {ty}:b {a} none"));
+            if thorough { out(format!("targmin {ty}:b {a} none true")); out(format!("tunique {ty}:b {a} 0")); }
+        }
+    }
+    // (R-f) zero-length axes: `zero_shapes()` x every axis (both spellings, and just outside the rank) x every query x element types
+    for (si, s) in zero_shapes().iter().enumerate() {
+        let rank = s.len() as isize;
+        let a = format!("{}:-", show_list(s));
+        let mut axes: Vec<String> = vec!["none".into(), rank.to_string(), (-rank - 1).to_string()];
+        for k in 0..rank { axes.push(k.to_string()); axes.push((k - rank).to_string()); }
+        for (ti, ty) in ["i64", "f64", "u8", "str"].iter().enumerate() {
+            let ks = [enum_kinds[(si + ti) % 4].clone(), enum_kinds[(si + ti + 1) % 4].clone(), all_spellings[(si * 5 + ti * 11) % all_spellings.len()].clone()];
+            emit_typed(out, &format!("{ty}:b"), &a, &axes, &ks, &ks[1..], &["none", "true", "false"], true);
+        }
+    }
+    // (R-g) selector spellings x receivers x sizes: every valid spelling on typed lanes with an axis; blank / whitespace /
+    //       wrong names (incl. non-ASCII) as &str and String on big (600 elements) and zero-size arrays
+    let big600: Vec<i64> = (0..600).map(|_| rng.range(0, 9)).collect();
+    let lanes: Vec<(&str, String)> = vec![("i64", arr_shaped(&[600], &big600)), ("u8", arr_shaped(&[2, 300], &big600)), ("f64", lane_ty("f64", &[3, 200], &big600, 1)),
+        ("i64", "0:-".to_string()), ("f64", "2,0:-".to_string()), ("str", arr_shaped(&[2, 3], &[3, 1, 2, 0, 0, 5]))];
+    for (ty, a) in &lanes {
+        let small = a.len() < 40;
+        for k in all_spellings { if small || k.len() % 3 == 0 { out(format!("tsort {ty}:b {a} -1 {k}")); out(format!("targsort {ty}:b {a} 0 {k}")); out(format!("tsort {ty}:r {a} none {k}")); } }
+        for bad in ["", " ", "  ", "\t", "\n", "stable ", " stable", "Stable\n", "quick", "QUICK SORT", "merge_sort", "heap", "none", "default", "0", "stablé", "ｓｔａｂｌｅ", "\u{feff}stable", "ſtable", "quicksort\u{0}"] {
+            for sp in ["s", "o"] {
+                out(format!("tsort {ty}:b {a} none {sp}:{}", hex(bad)));
+                out(format!("targsort {ty}:b {a} -1 {sp}:{}", hex(bad)));
+                out(format!("tsort {ty}:r {a} 7 {sp}:{}", hex(bad)));
+            }
+        }
+    }
 }
 
 // ---------------------------------------------------------------- executor
@@ -285,7 +518,147 @@ fn checked<T: ArrayElement + std::fmt::Display>(r: Result<Array<T>, ArrayError>)
     res_arr(&r)
 }
 
+// ---------------------------------------------------------------- typed executor (robustness streams)
+
+/// strictly increasing in Rust's `String` order (byte-wise UTF-8): key k < 14 is `STR_TABLE[k]`, larger keys follow
+const STR_TABLE: [&str; 14] = ["", " ", "0", "10", "9", "A", "B", "a", "a ", "aa", "ab", "b", "é", "日本"];
+
+trait Lane: ArrayElement + std::fmt::Display {
+    fn from_tok(t: &str) -> Option<Self>;
+    /// value-level protocol token (0.0 and -0.0 are the same value)
+    fn tok(&self) -> String;
+    /// identity of the representation (bit pattern)
+    fn raw(&self) -> String;
+}
+impl Lane for i64 { fn from_tok(t: &str) -> Option<Self> { t.parse().ok() } fn tok(&self) -> String { self.to_string() } fn raw(&self) -> String { self.to_string() } }
+impl Lane for u8 { fn from_tok(t: &str) -> Option<Self> { t.parse().ok() } fn tok(&self) -> String { self.to_string() } fn raw(&self) -> String { self.to_string() } }
+impl Lane for i8 { fn from_tok(t: &str) -> Option<Self> { t.parse().ok() } fn tok(&self) -> String { self.to_string() } fn raw(&self) -> String { self.to_string() } }
+impl Lane for String {
+    fn from_tok(t: &str) -> Option<Self> { let k: usize = t.parse().ok()?; Some(if k < STR_TABLE.len() { STR_TABLE[k].to_string() } else { format!("日本{k:09}") }) }
+    fn tok(&self) -> String {
+        if let Some(k) = STR_TABLE.iter().position(|x| x == self) { return k.to_string(); }
+        self.strip_prefix("日本").and_then(|d| d.parse::<usize>().ok()).map_or_else(|| format!("?{self}"), |k| k.to_string())
+    }
+    fn raw(&self) -> String { format!("{self:?}") }
+}
+impl Lane for f64 {
+    fn from_tok(t: &str) -> Option<Self> {
+        Some(match t { "n" => f64::NAN, "z" => -0.0, "e" => f64::from_bits(1), "-e" => -f64::from_bits(1), "I" => f64::INFINITY, "-I" => f64::NEG_INFINITY,
+            _ => { let k: i64 = t.parse().ok()?; if k.unsigned_abs() > 1u64 << 53 { return None; } k as f64 } })
+    }
+    fn tok(&self) -> String {
+        if self.is_nan() { "n".into() } else if *self == f64::INFINITY { "I".into() } else if *self == f64::NEG_INFINITY { "-I".into() }
+        else if self.to_bits() == 1 { "e".into() } else if self.to_bits() == (1u64 << 63) | 1 { "-e".into() }
+        else if self.fract() == 0.0 && self.abs() <= 9.1e15 { (*self as i64).to_string() } else { format!("?{self:e}") }
+    }
+    fn raw(&self) -> String { format!("{:016x}", self.to_bits()) }
+}
+fn parse_lane<T: Lane>(s: &str) -> Option<Array<T>> {
+    let (sh, el) = s.split_once(':')?;
+    let shape = parse_usize_list(sh);
+    let elems: Vec<T> = if el == "-" { vec![] } else { el.split(',').map(T::from_tok).collect::<Option<Vec<T>>>()? };
+    Array::new(elems, shape).ok()
+}
+
+/// one run of the real call: value-level answer, bit-level answer, and the result's elements (bit-level, value-level)
+#[derive(Clone, PartialEq)]
+struct Run { value: String, raw: String, raws: Vec<String>, toks: Vec<String> }
+fn run_t<T: Lane>(r: Result<Array<T>, ArrayError>) -> Run {
+    match r {
+        Ok(a) => {
+            if !consistent(&a) { let t = format!("inconsistent {}", show_arr(&a)); return Run { value: t.clone(), raw: t, raws: vec![], toks: vec![] }; }
+            let (sh, el) = (a.get_shape().unwrap(), a.get_elements().unwrap());
+            let toks: Vec<String> = el.iter().map(Lane::tok).collect();
+            let raws: Vec<String> = el.iter().map(Lane::raw).collect();
+            Run { value: format!("ok {}:{}", show_list(&sh), show_list(&toks)), raw: format!("ok {}:{}", show_list(&sh), show_list(&raws)), raws, toks }
+        }
+        Err(e) => Run { value: format!("err {}", err_name(&e)), raw: format!("err {e:?}"), raws: vec![], toks: vec![] },
+    }
+}
+fn run_u(r: Result<Array<usize>, ArrayError>) -> Run {
+    let raw = match &r { Err(e) => format!("err {e:?}"), Ok(_) => String::new() };
+    let value = checked(r);
+    Run { raw: if raw.is_empty() { value.clone() } else { raw }, value, raws: vec![], toks: vec![] }
+}
+macro_rules! with_kind {
+    ($recv:expr, $m:ident, $axis:expr, $kind:expr) => {
+        match $kind {
+            Kind::None => $recv.$m($axis, None::<&str>),
+            Kind::Enum(k) => $recv.$m($axis, Some(*k)),
+            Kind::Str(s) => $recv.$m($axis, Some(s.as_str())),
+            Kind::Owned(s) => $recv.$m($axis, Some(s.clone())),
+        }
+    };
+}
+enum TArg { Kind(Kind), Keep(Option<bool>), Nothing }
+
+fn typed<T: Lane>(op: &str, rc: &str, args: &[&str], expected: &str) -> Option<Verdict> {
+    let a: Array<T> = parse_lane::<T>(args.first()?)?;
+    let axis = parse_axis(args.get(1)?)?;
+    let arg = match op {
+        "tsort" | "targsort" => TArg::Kind(parse_kind_arg(args.get(2)?)?),
+        "targmax" | "targmin" => TArg::Keep(parse_keep(args.get(2)?)?),
+        "tunique" => TArg::Nothing,
+        _ => return None,
+    };
+    let call = |chained: bool| -> Run {
+        let r = catch_unwind(AssertUnwindSafe(|| {
+            let res: Result<Array<T>, ArrayError> = Ok(a.clone());
+            match (op, &arg) {
+                ("tsort", TArg::Kind(k)) => run_t(if chained { with_kind!(res, sort, axis, k) } else { with_kind!(a, sort, axis, k) }),
+                ("targsort", TArg::Kind(k)) => run_u(if chained { with_kind!(res, argsort, axis, k) } else { with_kind!(a, argsort, axis, k) }),
+                ("tunique", _) => run_t(if chained { res.unique(axis) } else { a.unique(axis) }),
+                ("targmax", TArg::Keep(kd)) => run_u(if chained { res.argmax(axis, *kd) } else { a.argmax(axis, *kd) }),
+                ("targmin", TArg::Keep(kd)) => run_u(if chained { res.argmin(axis, *kd) } else { a.argmin(axis, *kd) }),
+                _ => unreachable!(),
+            }
+        }));
+        r.unwrap_or_else(|_| Run { value: "panic".into(), raw: "panic".into(), raws: vec![], toks: vec![] })
+    };
+    let mut runs: Vec<(&str, Run)> = vec![];
+    if rc != "r" { runs.push(("the plain receiver", call(false))); if a.len().unwrap_or(0) <= 300 { runs.push(("the same call a second time", call(false))); } }
+    if rc != "p" { runs.push(("the chained call on Ok(array)", call(true))); }
+    let first = runs[0].1.clone();
+    for (name, r) in &runs[1..] {
+        if r.raw != first.raw {
+            return Some(Verdict::Mismatch { observed: format!("RECEIVER-DIVERGENCE {name} gives `{}`, {} gives `{}`", truncate(&r.raw, 300), runs[0].0, truncate(&first.raw, 300)),
+                detail: format!("all receivers / repeated calls must agree bit-wise; model says `{}`", truncate(expected, 300)) });
+        }
+    }
+    let input = a.get_elements().unwrap();
+    let has_nan = input.iter().any(ArrayElement::is_nan);
+    let mut sorted_in: Vec<String> = input.iter().map(Lane::raw).collect(); sorted_in.sort();
+    if op == "tsort" && first.value.starts_with("ok") {
+        // "each kept with its multiplicity": the multiset of bit patterns is preserved (0.0 and -0.0 are not traded for one another)
+        let mut so = first.raws.clone(); so.sort();
+        if so != sorted_in { return Some(Verdict::Mismatch { observed: first.raw.clone(), detail: format!("sort does not keep the multiset of element representations (value-level answer `{}`)", truncate(&first.value, 300)) }); }
+    }
+    if has_nan && op != "targmax" && op != "targmin" {
+        // no linear order: outside the statement.  Weak oracle, then open region.
+        if first.value == "panic" || first.value.starts_with("inconsistent") { return Some(Verdict::Mismatch { observed: first.value, detail: "lane with NaN: the call must still return".into() }); }
+        if op == "tunique" && axis.is_none() && first.value.starts_with("ok") {
+            let set = |v: Vec<String>| -> std::collections::BTreeSet<String> { v.into_iter().filter(|t| t != "n").collect() };
+            let (si, so) = (set(input.iter().map(Lane::tok).collect()), set(first.toks.clone()));
+            if si != so { return Some(Verdict::Mismatch { observed: first.value, detail: "unique on a lane with NaN lost or invented a non-NaN value".into() }); }
+        }
+        return Some(Verdict::Open(first.value));
+    }
+    Some(compare_default(first.value, expected))
+}
+
 fn exec(op: &str, args: &[&str], expected: &str) -> Option<Verdict> {
+    if matches!(op, "tsort" | "targsort" | "tunique" | "targmax" | "targmin") {
+        let (ty, rc) = args.first()?.split_once(':')?;
+        if !matches!(rc, "p" | "r" | "b") { return None; }
+        return match ty {
+            "i64" => typed::<i64>(op, rc, &args[1..], expected),
+            "u8" => typed::<u8>(op, rc, &args[1..], expected),
+            "i8" => typed::<i8>(op, rc, &args[1..], expected),
+            "str" => typed::<String>(op, rc, &args[1..], expected),
+            "f64" => typed::<f64>(op, rc, &args[1..], expected),
+            _ => None,
+        };
+    }
     let observed = match op {
         "sort" | "argsort" => {
             let a = parse_arr_i64(args.first()?);
@@ -325,8 +698,8 @@ fn exec(op: &str, args: &[&str], expected: &str) -> Option<Verdict> {
 
 /// non-trivial: the lane has at least two elements and is not already in strictly increasing order
 /// (so sorting moves something, or duplicates have to be ranked / collapsed)
-fn nontrivial(_op: &str, args: &[&str]) -> bool {
-    let Some(a) = args.first() else { return false };
+fn nontrivial(op: &str, args: &[&str]) -> bool {
+    let Some(a) = (if op.starts_with('t') { args.get(1) } else { args.first() }) else { return false };
     let Some((_, el)) = a.split_once(':') else { return false };
     if el == "-" { return false; }
     let toks: Vec<&str> = el.split(',').collect();
@@ -344,5 +717,13 @@ every axis in both spellings (k and k-rank) of every shape of rank<=4 with axis 
 zero-length axes, axes outside the rank) for sort x 4 kinds, argsort, argmax/argmin x keepdims none/true/false, unique; \
 the lane lengths <= 1000 (2000) at which a merge pass meets a one-element right run; \
 NaN arm of argmax/argmin on f64 lanes over {0,1,NaN} of length<=4; + seeded random lanes of length 131..400 (quick) / ..2000 (thorough); \
-+ unknown selector names. distinct = distinct case lines; non-trivial = lane of length>=2 not already strictly increasing" });
++ unknown selector names; \
+ROBUSTNESS STREAMS (typed ops t*, every case on the plain receiver, a second time, and on Ok(array) through the Result impl, all bit-wise equal; \
+answers compared at value level, 0.0 = -0.0, sort must keep the multiset of bit patterns): element types u8 / i8 / String / f64 with zeros of both signs on \
+every lane over {0,1,2} of length<=4 (5); f64 lanes over {0.0,-0.0,1,NaN} of length<=4 (5) and random lanes to 130 with subnormals / infinities / NaN first-middle-last \
+(sort / unique / argsort on lanes with NaN = open region with a weak oracle); i64 beyond 2^53 and at i64::MIN/MAX, u8 at 0/127/128/254/255, i8 at -128/127, \
+String lanes incl. empty / blank / case / non-ASCII; argsort ties on lanes of 21,22,32,33,40,64,65,100,130,257,528,1030 (2100,4100) elements x 5 contents x 4 kinds x all spellings, \
+also as lanes of n-D arrays; big_shapes() (axis lengths 7..17, 300/1030/4100/4900 elements) x every axis in both spellings x all queries; lanes of 4100 (5000) \
+elements with repeated extreme values; zero_shapes() x every axis x all queries x 4 element types; valid and blank / whitespace / wrong / non-ASCII selector \
+names as &str and String on 600-element and zero-size arrays. distinct = distinct case lines; non-trivial = lane of length>=2 not already strictly increasing" });
 }
